@@ -224,6 +224,9 @@ def random_phase(out, count):
 def run(tier):
     out = common.Outcome('C14', tier)
     parselib.self_check_templates()
+    # malformed in another way than by Python syntax: a directive comment whose parentheses do not balance makes the parser
+    # fail inside directive extraction (IndexError / AssertionError wrapped in the parse error, not a SyntaxError)
+    parselib.EXTRA['badone'] = [["x{k} = p({k})  # xdoctest: +SKIP)"], ["y{k} = 0  # xdoctest: +REQUIRES(module:os"], ["z{k} = 0  # doctest: +ELLIPSIS)"]]
     b = BOUNDS[tier]
     out.rule = ('every docstring of <= %d building blocks over C14_Blocks (well-formed and malformed blocks); %d three-docstring modules x styles; '
                 '%d random strings (envelope only)' % (b['n'], b['modules'], b['random']))
